@@ -5,6 +5,8 @@ import Marwood.Lemmas.EvalPrelude
 import Marwood.Lemmas.EvalMonoMain
 import Marwood.Lemmas.EvalDerivedCond
 import Marwood.Lemmas.EvalDerivedExpand
+import Marwood.Lemmas.EvalDerived2
+import Marwood.Lemmas.EvalDerived2Case2
 import Marwood.Lemmas.CompileCorrect
 import Marwood.Lemmas.CompileCorrectDemo
 import Marwood.Lemmas.CompileCorrectLoop
@@ -21,6 +23,7 @@ import Marwood.Lemmas.CompileCorrect3Embed
 import Marwood.Lemmas.CompileCorrect3Arity
 import Marwood.Lemmas.CompileCorrect3Demo
 import Marwood.Lemmas.CompileCorrect3DemoApply
+import Marwood.Lemmas.CompileCorrect3Props
 /-!
 # C01 — evaluation agrees with the language semantics for core and derived forms
 
@@ -40,9 +43,17 @@ What is proved here and what is not (see `lib/props/c01.py` META.note):
   meaning, up to fuel — closed for when, unless (under "`not` is the primitive"), begin (bodies
   without definitions), and, or (0/1 operands), let, let*, named let, cond (else clause; clauses with
   a body), case (`else =>`); `letrec` up to the content of uninitialised variables (`#f` vs
-  `#<undefined>`); for the rules that bind `var1` / `temp` (or with ≥ 2 operands, cond `=>` and
-  test-only clauses) only what the expansion computes is characterised and the capture is proved at
-  witnesses; case with a datum list and delay are open (see `lib/props/c01.py` META.note).
+  `#<undefined>`); for the rules whose expansion allocates cells the native meaning does not have — `or`
+  with ≥ 2 operands (`var1`), cond `=>` and test-only clauses followed by more (`temp`), case with a
+  compound key (`atom-key`), case clauses with a datum list (the quoted list of `memv`) — agreement UP TO
+  THOSE CELLS (`t01_2_or`, `t01_2_cond_test`, `t01_2_cond_arrow`, `t01_2_case_key`, `t01_2_case_body`,
+  `t01_2_case_arrow`: an injective renaming of locations relates values, globals, stores; same error
+  class, same output) from every well-formed state, under "the binder does not occur in the sub-forms
+  evaluated under it", in the direction native ⇒ expansion and for native runs that do not run a
+  store-size-fuelled helper into its bound on cyclic data (`extra_cell_invariance`,
+  `or_cyclic_display_differs`); the capture is proved at witnesses; `(case k (else r …))` exactly, from
+  states where the key evaluates without effect (`t01_2_case_else`); delay / delay-force are open
+  (see `lib/props/c01.py` META.note).
 * T01.3 (compiler correctness, `run (compile e) ≈ Spec.Eval e`), all `_partial`, on the model machine over
   an abstract heap satisfying explicit law structures (the behaviour of builtin calls is one of the laws):
   stage 1 (`compile_correct_stage1_partial`; `Lemmas/CompileCorrect*.lean`): the closure-free fragment,
@@ -552,6 +563,197 @@ theorem t01_2_first_half_rest :
    fun k atoms r1 rs cs hk hr => expand_case_body k atoms r1 rs cs hk hr, expand_delay, expand_delayForce⟩
 
 
+/-! ## T01.2 second half for the rules that bind an identifier of their own (`var1`, `temp`, `atom-key`)
+
+These expansions allocate a variable the native meaning does not have and evaluate the remaining
+sub-forms under one more binding, so the two outcomes cannot be EQUAL states: they are equal up to an
+injective renaming `f` of locations (`Lemmas/EvalExtra*.lean`: `VRel f`, `StRel f`, `ResRel f`).
+`extra_cell_invariance` is the main lemma (induction on the fuel through every special form,
+primitive, `apply`/`eval`/`force`/`map`/`for-each`). It is about the GUARDED native run `guardN`:
+`display`/`write`/`eval`, `equal?`, the list walkers and `memv`/`assv` take their fuel from the store
+size, so on cyclic data their result depends on the number of cells — `or_cyclic_display_differs` is a
+concrete program on which `(or e1 e2)` and its expansion print different text in `Spec.Eval`. `guardN`
+makes "ran into that bound" a time-out; where it is definite it agrees with `evalN` (`guarded_refines`)
+and with every store that has more cells. -/
+
+open Marwood.Spec.Eval.Extra
+
+/-- the guarded evaluator is `Spec.Eval` wherever it is definite -/
+theorem guarded_refines (n : Nat) (e : Datum) (ρ : Env) (st : St) (h : (guardN n).eval e ρ st ≠ .timeout) :
+    (evalN n).eval e ρ st = (guardN n).eval e ρ st := guardN_eval_evalN n e ρ st h
+
+/-- **Invariance of `Spec.Eval` under extra unreachable cells and unused bindings.** `f` injective;
+    `st'` holds the cells of `st` at their images under `f` (anything elsewhere), allocation in step
+    (`StRel f st st'`); `ρ'` agrees with `ρ` under `f` on every name outside `B`; no name of `B` occurs
+    in `e`. If the guarded native run ends definitely, the run in `st'`, `ρ'` with the same fuel ends
+    with the same kind of outcome, the same error class / output log, values, globals and stores
+    related by `f`. -/
+theorem extra_cell_invariance {f : LMap} (hf : Inj f) (n : Nat) (e : Datum) {B : List Text} {ρ ρ' : Env}
+    (he : EnvRel f B ρ ρ') (hc : CleanB B e) {st st' : St} (rs : StRel f st st') :
+    ResRel f (VRel f) ((guardN n).eval e ρ st) ((evalN n).eval e ρ' st') :=
+  Marwood.Spec.Eval.Extra.extra_cell_invariance hf n e he hc rs
+
+/-- … for a whole top-level form, definitions included: from the related states a derived form and its
+    expansion leave behind, the FOLLOWING forms of a session evaluate alike -/
+theorem extra_cell_invariance_top {f : LMap} (hf : Inj f) (n : Nat) (d : Datum) {st st' : St} (rs : StRel f st st') :
+    ResRel f (VRel f) (evalTop (guardN n) d st) (evalTop (evalN n) d st') :=
+  Marwood.Spec.Eval.Extra.extra_cell_invariance_top hf n d rs
+
+/-- the instance the expansions need: a well-formed state against itself with `k` more cells at the
+    end of the store, an environment against itself with one more binding in front -/
+theorem extra_cells_appended {st : St} (hst : WFSt st) (k : Nat) (σ' : Array Cell) (hsz : σ'.size = st.store.size + k)
+    (hpre : ∀ l, l < st.store.size → σ'[l]? = st.store[l]?) {ρ : Env} (hρ : EnvOK st.store.size ρ) (x : Text) (l : Loc) :
+    Inj (shiftAt st.store.size k) ∧ StRel (shiftAt st.store.size k) st { st with store := σ' } ∧
+    EnvRel (shiftAt st.store.size k) [x] ρ ((x, l) :: ρ) :=
+  ⟨inj_shiftAt _ _, stRel_extend hst k σ' hsz hpre, envRel_shift_cons hρ x l⟩
+
+/-- the hypotheses are satisfiable: the initial state is well formed (and so is every state a session
+    reaches: `wf_runSession`) -/
+example : WFSt initSt ∧ EnvOK initSt.store.size [] := ⟨wf_initSt, by simp⟩
+
+/-- without the guard the invariance fails in `Spec.Eval`: printing a circular list unfolds it as deep
+    as the store is large, and the expansion of `or` has one more cell -/
+theorem or_cyclic_display_differs :
+    let p := s ['p']
+    let setup := [L [s k_define, p, L [s ['c','o','n','s'], .num (.fix 1), L [s k_quote, .nil]]],
+                  L [s ['s','e','t','-','c','d','r','!'], p, p]]
+    let e2 := L [s ['d','i','s','p','l','a','y'], p]
+    output 12 (setup ++ [orUse [.bool false, e2]]) ≠ output 12 (setup ++ [orExp [.bool false, e2]]) := by
+  decide +kernel
+
+/-- the prelude's transformer for `name` rewrites `use` to a term that evaluates like `use` under its
+    native meaning up to the cells the expansion allocates, from state `st` -/
+def ExpandsAndAgreesUpToExtra (name : Text) (k : Nat) (use : Datum) (ρ : Env) (st : St) : Prop :=
+  ∃ exp, expand name use = some exp ∧ AgreesUpToExtra k use exp ρ st
+
+/-- `(or e e2 …)` ≈ `(let ((var1 e)) (if var1 var1 (or e2 …)))` when `var1` does not occur in `e2 …` -/
+theorem t01_2_or (ρ : Env) (e e2 : Datum) (es : List Datum) (st : St) (hst : WFSt st) (hρ : EnvOK st.store.size ρ)
+    (hfree : ∀ d ∈ e2 :: es, mentions k_var1 d = false) :
+    ExpandsAndAgreesUpToExtra k_or_ 3 (orUse (e :: e2 :: es)) ρ st :=
+  ⟨_, expand_or _, or_agrees ρ e e2 es st hst hρ hfree⟩
+
+/-- `(cond (t) c cs …)` ≈ `(let ((temp t)) (if temp temp (cond c cs …)))` when `temp` does not occur in
+    `c cs …` (the final `(cond (t))` is `cond_test_final_differs`) -/
+theorem t01_2_cond_test (ρ : Env) (t c : Datum) (cs : List Datum) (ht : t ≠ s k_else_) (st : St) (hst : WFSt st)
+    (hρ : EnvOK st.store.size ρ) (hfree : ∀ d ∈ c :: cs, mentions k_temp d = false) :
+    ExpandsAndAgreesUpToExtra k_cond 3 (condUse (L [t] :: c :: cs)) ρ st :=
+  ⟨_, expand_cond_test t (c :: cs), cond_test_agrees ρ t c cs ht st hst hρ hfree⟩
+
+/-- `(cond (t => f) clause …)` ≈ `(let ((temp t)) (if temp (f temp) [(cond clause …)]))` when `temp`
+    occurs neither in `f` nor in the remaining clauses and `f` is not a syntactic keyword -/
+theorem t01_2_cond_arrow (ρ : Env) (t f : Datum) (cs : List Datum) (ht : t ≠ s k_else_)
+    (hf : ∀ x, f = .sym x → kwOf x = none) (st : St) (hst : WFSt st) (hρ : EnvOK st.store.size ρ)
+    (hfree : ∀ d ∈ f :: cs, mentions k_temp d = false) :
+    ExpandsAndAgreesUpToExtra k_cond 2 (condUse (L [t, s k_arrow, f] :: cs)) ρ st :=
+  ⟨_, expand_cond_arrow t f cs ht, cond_arrow_agrees ρ t f cs ht hf st hst hρ hfree⟩
+
+/-- `(case (k …) c cs …)` ≈ `(let ((atom-key (k …))) (case atom-key c cs …))` when `atom-key` does not occur
+    in the clauses -/
+theorem t01_2_case_key (ρ : Env) (ks : List Datum) (c : Datum) (cs : List Datum) (st : St) (hst : WFSt st)
+    (hρ : EnvOK st.store.size ρ) (hfree : ∀ d ∈ c :: cs, mentions k_atomKey d = false) :
+    ExpandsAndAgreesUpToExtra k_case_ 2 (caseUse (L ks) (c :: cs)) ρ st :=
+  ⟨_, expand_case_key ks (c :: cs), case_key_agrees ρ ks c cs st hst hρ hfree⟩
+
+theorem atomKey_not_list {k : Datum} (h : atomKey k = true) : ∀ ks, k ≠ L ks := by
+  intro ks e
+  subst e
+  cases ks <;> simp [L, Datum.ofList, atomKey] at h
+
+/-- `(case k (else r1 r2 …))` ≈ `(begin r1 r2 …)`, exactly (same state), from a state in which the key
+    evaluates without effect: the native meaning evaluates it, the expansion never does -/
+theorem t01_2_case_else (ρ : Env) (k r1 : Datum) (rs : List Datum) (hk : ∀ ks, k ≠ L ks)
+    (hr : ¬ (r1 = s k_arrow ∧ rs.length = 1)) (st : St)
+    (hpure : ∀ m, ∃ v, (evalN (m + 1)).eval k ρ st = .ok v st) :
+    ∃ exp, expand k_case_ (caseUse k [L (s k_else_ :: r1 :: rs)]) = some exp ∧
+      SameAt 1 (caseUse k [L (s k_else_ :: r1 :: rs)]) exp ρ st :=
+  ⟨_, expand_case_else k r1 rs hk hr, case_else_same ρ k r1 rs hr st hpure⟩
+
+/-- … a constant key satisfies the hypothesis in every state; with an unbound variable as key the two
+    differ (native: error, expansion: the body) -/
+example (st : St) : ∀ m, ∃ v, (evalN (m + 1)).eval (.num (.fix 3)) [] st = .ok v st := fun _ => ⟨.int 3, rfl⟩
+
+theorem case_else_unbound_key_differs :
+    results 10 [caseUse (s ['u']) [L [s k_else_, .num (.fix 1)]]] = [.err .unbound] ∧
+    results 10 [caseElseExp (.num (.fix 1)) []] = [.ok (.num (.fix 1))] := by decide +kernel
+
+/-- `(case k ((d …) r1 r2 …) clause …)` ≈ `(if (memv k '(d …)) (begin r1 r2 …) [(case k clause …)])` for an
+    atomic key (a variable or a constant: what the key is after rule 1), data that `quote` turns into
+    atoms, `memv` not shadowed and globally the primitive; the expansion's store has one more cell per
+    datum (the quoted list) -/
+theorem t01_2_case_body (ρ : Env) (k : Datum) (atoms : List Datum) (r1 : Datum) (rs cs : List Datum)
+    (hr : ¬ (r1 = s k_arrow ∧ rs.length = 1)) (hat : ∀ d ∈ atoms, simpleAtom d = true) (hkey : atomKey k = true)
+    (st : St) (hst : WFSt st) (hρ : EnvOK st.store.size ρ) (hρm : ρ.lookup k_memv = none)
+    (hg : st.globals.lookup k_memv = some (.prim .memv)) :
+    ExpandsAndAgreesUpToExtra k_case_ 1 (caseUse k (L (L atoms :: r1 :: rs) :: cs)) ρ st :=
+  ⟨_, expand_case_body k atoms r1 rs cs (atomKey_not_list hkey) hr,
+    case_body_agrees ρ k atoms r1 rs cs hr hat hkey st hst hρ hρm hg⟩
+
+/-- `(case k ((d …) => f) clause …)` ≈ `(if (memv k '(d …)) (f k) [(case k clause …)])`, same hypotheses, `f`
+    not a syntactic keyword -/
+theorem t01_2_case_arrow (ρ : Env) (k : Datum) (atoms : List Datum) (f : Datum) (cs : List Datum)
+    (hf : ∀ x, f = .sym x → kwOf x = none) (hat : ∀ d ∈ atoms, simpleAtom d = true) (hkey : atomKey k = true)
+    (st : St) (hst : WFSt st) (hρ : EnvOK st.store.size ρ) (hρm : ρ.lookup k_memv = none)
+    (hg : st.globals.lookup k_memv = some (.prim .memv)) :
+    ExpandsAndAgreesUpToExtra k_case_ 1 (caseUse k (L [L atoms, s k_arrow, f] :: cs)) ρ st :=
+  ⟨_, expand_case_arrow k atoms f cs (atomKey_not_list hkey),
+    case_arrow_agrees ρ k atoms f cs hf hat hkey st hst hρ hρm hg⟩
+
+/-- non-vacuity for the `case` rules in the initial state: `(case 3 ((1 2) 'a) ((3 x) 'b))`,
+    `(case 3 ((3) => list) (else 0))`, `(case (car '(3)) ((3) 1))` -/
+example :
+    (guardN 4).eval (caseUse (.num (.fix 3)) [L [L [.num (.fix 1), .num (.fix 2)], L [s k_quote, s ['a']]],
+        L [L [.num (.fix 3), s ['x']], L [s k_quote, s ['b']]]]) [] initSt ≠ .timeout ∧
+    (guardN 4).eval (caseUse (.num (.fix 3)) [L [L [.num (.fix 3)], s k_arrow, s ['l','i','s','t']],
+        L [s k_else_, .num (.fix 0)]]) [] initSt ≠ .timeout ∧
+    (guardN 5).eval (caseUse (L [s ['c','a','r'], L [s k_quote, L [.num (.fix 3)]]]) [L [L [.num (.fix 3)], .num (.fix 1)]]) [] initSt ≠ .timeout ∧
+    ([] : Env).lookup k_memv = none ∧ initSt.globals.lookup k_memv = some (.prim .memv) ∧
+    (∀ d ∈ [Datum.num (.fix 3), s ['x']], simpleAtom d = true) ∧ atomKey (.num (.fix 3)) = true :=
+  ⟨definiteB_ne (by decide +kernel), definiteB_ne (by decide +kernel), definiteB_ne (by decide +kernel),
+   rfl, by decide +kernel, by decide +kernel, rfl⟩
+
+/-- what the relation says about the observable parts: same kind of outcome, same error class, same
+    output log, and the same printed value when the native value is not cyclic -/
+theorem agrees_observables {f : LMap} {res res' : Res Val} (h : ResRel f (VRel f) res res') (hd : res ≠ .timeout) :
+    (∃ v s v' s', res = .ok v s ∧ res' = .ok v' s' ∧ VRel f v v' ∧ s'.out = s.out ∧
+        (valCut (s.store.size + 1) s.store v = false →
+          valToDatum (s'.store.size + 1) s'.store v' = valToDatum (s.store.size + 1) s.store v)) ∨
+    (∃ e s s', res = .err e s ∧ res' = .err e s' ∧ s'.out = s.out) := ResRel.observe h hd
+
+/-- the outcome described is the ONLY definite outcome the expansion has, whatever the fuel -/
+theorem agrees_unique {k : Nat} {use exp : Datum} {ρ : Env} {st : St} (h : AgreesUpToExtra k use exp ρ st)
+    (n : Nat) (hd : (guardN n).eval use ρ st ≠ .timeout) (m : Nat) (hm : (evalN m).eval exp ρ st ≠ .timeout) :
+    (evalN m).eval exp ρ st = (evalN (n + k)).eval exp ρ st := h.unique n hd m hm
+
+/-- as top-level forms the derived form and its expansion print the same result (value text or error
+    class) when the native value is not cyclic -/
+theorem agrees_printed {k : Nat} {use exp : Datum} {st : St} (h : AgreesUpToExtra k use exp [] st)
+    (htop : ∀ r, evalTop r use = r.eval use [] ∧ evalTop r exp = r.eval exp [])
+    (n : Nat) (hd : (guardN n).eval use [] st ≠ .timeout)
+    (hac : ∀ v s, (evalN n).eval use [] st = .ok v s → valCut (s.store.size + 1) s.store v = false) :
+    (runForm (n + k) exp st).1 = (runForm n use st).1 := h.printed htop n hd hac
+
+/-- … e.g. for `or`: neither the form nor its expansion is a definition or a top-level `begin` -/
+example (e e2 : Datum) (es : List Datum) (r : Rec) :
+    evalTop r (orUse (e :: e2 :: es)) = r.eval (orUse (e :: e2 :: es)) [] ∧
+    evalTop r (orExp (e :: e2 :: es)) = r.eval (orExp (e :: e2 :: es)) [] := by
+  have h1 : (k_or_ == k_begin_) = false := by decide
+  have h2 : (k_or_ == k_define) = false := by decide
+  have h3 : (k_let_ == k_begin_) = false := by decide
+  have h4 : (k_let_ == k_define) = false := by decide
+  constructor <;> simp [orUse, orExp, L, s, Datum.ofList, evalTop, evalTopForm, isDefine, h1, h2, h3, h4]
+
+/-- non-vacuity: the guarded native run of `(or #f (car '(7)))` from the initial state is definite, and
+    the freeness hypothesis holds -/
+example : (guardN 4).eval (orUse [.bool false, L [s ['c','a','r'], L [s k_quote, L [.num (.fix 7)]]]]) [] initSt ≠ .timeout ∧
+    (∀ d ∈ [L [s ['c','a','r'], L [s k_quote, L [.num (.fix 7)]]]], mentions k_var1 d = false) :=
+  ⟨definiteB_ne (by decide +kernel), by decide +kernel⟩
+
+/-- non-vacuity for the `cond` rules: `(cond (#f) (else 1))`, `(cond (7 => list) (else 1))` -/
+example : (guardN 4).eval (condUse [L [.bool false], L [s k_else_, .num (.fix 1)]]) [] initSt ≠ .timeout ∧
+    (guardN 4).eval (condUse [L [.num (.fix 7), s k_arrow, s ['l','i','s','t']], L [s k_else_, .num (.fix 1)]]) [] initSt ≠ .timeout :=
+  ⟨definiteB_ne (by decide +kernel), definiteB_ne (by decide +kernel)⟩
+
+
 /-! ## T01.3 stage 1 (partial): compiler correctness for the closure-free fragment, success case
 
 `Lemmas/CompileCorrect*.lean`. Machine: `Marwood.Vm.step` (Vm/Machine.lean) over any heap operations
@@ -991,7 +1193,7 @@ open Marwood.Lemmas.CompileCorrect Marwood.Lemmas.CompileCorrect2 Marwood.Lemmas
 /-- **Rest parameters, ERROR case (arity).** A closure `(lambda (x₁ … xₖ . r) …)` called with fewer than `k`
     arguments: `Spec.Eval`'s `apply` fails with class `arity`; the machine, in the state `CALL`/`TCALL` left, fails at
     its next instruction — `VARARG`, first case of run.rs — with `InvalidNumArgs`, before anything is allocated.
-    (The only error case of stage 3 that is proved.) -/
+    (The other error cases of stage 3 are `compile_correct_stage3_error_partial` / `closure_call_stage3_error_partial` in Lemmas/CompileCorrect3Props.lean.) -/
 theorem closure_call_stage3_rest_arity_error_partial {H : Type} {ops : HeapOps H} {D : RepData2 ops} (L : Laws3 D)
     {n : Nat} {ps : List Text} {r : Text} {body : List Datum} {ρc : Env} {ws : List Val} {σ : Spec.Eval.St}
     {W : World} {s : Vm.St H} {lam cenv : Nat} {vs : List VCell} {st0 : Stack} {epc lc oc : Nat}
